@@ -45,6 +45,10 @@ func runLBMix(x *X) {
 	o.interval, o.timeout = 2, 1
 	if c.Intn(2, "breaker") == 1 {
 		o.breaker = &config.CircuitBreakerConfig{Enabled: true, MaxRequests: 1 + c.Intn(2, "mr"), IntervalSeconds: 5, TimeoutSeconds: 1 + c.Intn(2, "cbt"), FailureThreshold: 1 + c.Intn(3, "cbft"), SuccessThreshold: 1}
+		if c.Intn(3, "cb-success-threshold") == 0 {
+			o.breaker.SuccessThreshold = 2
+			o.breaker.MaxRequests = []int{0, 2}[c.Intn(2, "cb-mr-unset")]
+		}
 	}
 	if c.Intn(2, "limiter") == 1 {
 		o.limiter = &config.RateLimitConfig{Enabled: true, MaxTokens: 2 + c.Intn(6, "tokens"), RefillRate: 1 + c.Intn(2, "refill")}
